@@ -14,6 +14,8 @@ import PS.Proofs.Cfg
 import PS.Proofs.Lang
 import PS.Proofs.Programs
 import PS.Proofs.Mass
+import PS.Proofs.CfgBuild
+import PS.Proofs.CfgPrograms
 namespace PS.G
 open PS
 
@@ -124,7 +126,7 @@ theorem C01_count (P : Params) (G : CFG) (dead : List CNT) (rankR rankP : AList 
   intro t
   rw [mem_lang_of_bounded G hrows k t G.start hb, ← hcert t, C01_contains_gen]
 
-/-! ### non-vacuity and the recorded finding -/
+/-! ### literals for the non-vacuity examples -/
 namespace Example
 def int : Ty := .base "int"
 def plus : Sym := Sym.prim "+" (.arrow int (.arrow int int))
@@ -137,7 +139,346 @@ def leaf (s : Sym) : Prog := .node s []
 /-- `(+ (+ 1 1) 1)` : the forbidden pattern ("+", 0, "+") -/
 def bad : Prog := .node plus [.node plus [leaf one, leaf one], leaf one]
 def good : Prog := .node plus [leaf one, .node plus [leaf one, leaf (Sym.var 0 int)]]
+/-- a DSL where `clean` has work to do: `g : int -> bool -> int` and `h : bool -> bool` need the
+    uninhabited type `bool` -/
+def boolT : Ty := .base "bool"
+def gS : Sym := Sym.prim "g" (.arrow int (.arrow boolT int))
+def hS : Sym := Sym.prim "h" (.arrow boolT boolT)
+def P3 : Params := { P2 with prims := [plus, one, gS, hS] }
+/-- request `int -> bool`: the language is empty, the constructor fails -/
+def P4 : Params := { P3 with request := .arrow int boolT }
+/-- the table of `P3` when the worklist loop ends (10 non-terminals) -/
+def tbl3 : Table := (closure P3 16 [startNT P3] []).getD []
+/-- … and after `clean` (5 non-terminals) -/
+def T3 : Table := (removeNonReachable (startNT P3) (removeNonProductive tbl3)).getD []
+def tbl4 : Table := (closure P4 3 [startNT P4] []).getD []
 end Example
+
+/-! ### the construction itself: worklist loop + `clean`, for every parameter set
+
+  The theorems above certify a *given* table.  The ones below close the remaining quantifier:
+  the model of `CFG.depth_constraint` (`buildTable` = worklist `closure`, then
+  `removeNonProductive`, then `removeNonReachable`) produces, for EVERY DSL, type request,
+  depth, n-gram width, forbidden table, minimum variable depth, constant types and recursive
+  flag, a table with exactly the specified language, all of whose non-terminals are reachable
+  and productive.  No well-formedness hypothesis on the parameters is needed. -/
+
+/-- **`clean` keeps the language** of ANY rule table that is a dict of dicts. -/
+theorem C01_clean_lang (start : CNT) (tbl T' : Table) (hwf : TableWF tbl)
+    (h : removeNonReachable start (removeNonProductive tbl) = some T') (t : Prog) :
+    contains (⟨start, T'⟩ : CFG) t = contains (⟨start, tbl⟩ : CFG) t := by
+  rw [C01_contains_gen, C01_contains_gen]
+  exact (clean_some start tbl T' hwf h).lang t
+
+open Example in
+/-- non-vacuity: on `P3` the loop ends with 10 non-terminals, `clean` succeeds and leaves 5 -/
+theorem Example.tbl3_eq : closure P3 16 [startNT P3] [] = some tbl3 :=
+  eq_some_getD _ [] (by decide)
+open Example in
+theorem Example.tbl3_wf : TableWF tbl3 :=
+  cinv_wf P3 tbl3 [] (closure_inv P3 16 _ _ tbl3 (cinv_init P3) Example.tbl3_eq)
+open Example in
+theorem Example.T3_eq : removeNonReachable (startNT P3) (removeNonProductive tbl3) = some T3 :=
+  eq_some_getD _ [] (by decide)
+open Example in
+example : TableWF tbl3 ∧ removeNonReachable (startNT P3) (removeNonProductive tbl3) = some T3 ∧
+    tbl3.length = 10 ∧ T3.length = 5 ∧ contains (⟨startNT P3, tbl3⟩ : CFG) good = true :=
+  ⟨Example.tbl3_wf, Example.T3_eq, by decide, by decide, by decide⟩
+
+/-- **after `clean` every non-terminal is reachable and productive**, every argument of a
+    remaining rule is a remaining non-terminal, every remaining rule is a rule of the original
+    table, and a rule of a remaining non-terminal whose arguments are all productive is kept —
+    for ANY dict-of-dicts table. -/
+theorem C01_clean_reachable_productive (start : CNT) (tbl T' : Table) (hwf : TableWF tbl)
+    (h : removeNonReachable start (removeNonProductive tbl) = some T') :
+    AList.contains start T' = true ∧
+    (∀ e ∈ T', Reach (⟨start, T'⟩ : CFG) e.1 ∧ (∃ t, gen (⟨start, T'⟩ : CFG) t e.1 = true) ∧
+      (∀ r ∈ e.2, ∀ a ∈ r.2.1, AList.contains (toNT a) T' = true) ∧
+      ∃ e0 ∈ tbl, e0.1 = e.1 ∧ (∀ r ∈ e.2, r ∈ e0.2) ∧
+        ∀ r ∈ e0.2, (∀ a ∈ r.2.1, ∃ t, gen (⟨start, tbl⟩ : CFG) t (toNT a) = true) → r ∈ e.2) := by
+  have hs := clean_some start tbl T' hwf h
+  refine ⟨mem_keys_iff_contains.mp hs.start_key, ?_⟩
+  intro e he
+  have hk := mem_keys_of_mem he
+  refine ⟨hs.reachable _ hk, hs.productive _ hk,
+    fun r hr a ha => mem_keys_iff_contains.mp (hs.closed e he r hr a ha), ?_⟩
+  obtain ⟨e0, he0, h1, h2⟩ := hs.sub e he
+  exact ⟨e0, he0, h1, h2, fun r hr hp => hs.kept e he e0 he0 h1 r hr hp⟩
+
+open Example in
+/-- non-vacuity: 3 of the 10 non-terminals are unproductive, 2 more become unreachable -/
+example : (removeNonProductive tbl3).length = 7 ∧ T3.length = 5 ∧ ∀ e ∈ T3, Reach (⟨startNT P3, T3⟩ : CFG) e.1 :=
+  ⟨by decide, by decide, fun e he =>
+    ((C01_clean_reachable_productive _ tbl3 T3 Example.tbl3_wf Example.T3_eq).2 e he).1⟩
+
+/-- **`clean` raises (KeyError on the start symbol) only when the language is empty.** -/
+theorem C01_clean_fails_empty (start : CNT) (tbl : Table) (hwf : TableWF tbl)
+    (h : removeNonReachable start (removeNonProductive tbl) = none) (t : Prog) :
+    contains (⟨start, tbl⟩ : CFG) t = false := by
+  rw [C01_contains_gen]
+  exact clean_none start tbl hwf h t
+
+open Example in
+/-- non-vacuity: on `P4` (request `int -> bool`) the loop ends and `clean` fails -/
+theorem Example.tbl4_eq : closure P4 3 [startNT P4] [] = some tbl4 :=
+  eq_some_getD _ [] (by decide)
+open Example in
+example : tbl4.length = 3 ∧ removeNonReachable (startNT P4) (removeNonProductive tbl4) = none := by decide
+
+/-- **`_remove_non_productive_` computes the least fixed point**: the set found by the
+    `while changed` loop (model: `prodFix` with fuel `|table| + 1`, never exhausted) is exactly
+    the set of non-terminals that derive a program. -/
+theorem C01_clean_productive_fixpoint (start : CNT) (tbl : Table) (hwf : TableWF tbl) (nt : CNT) :
+    nt ∈ prodFix tbl (tbl.length + 1) [] ↔ ∃ t, gen (⟨start, tbl⟩ : CFG) t nt = true :=
+  mem_prodSet_iff start tbl hwf nt
+
+open Example in
+/-- non-vacuity: the fixed point is a proper, non-empty subset of the non-terminals -/
+example : (prodFix tbl3 (tbl3.length + 1) []).length = 7 ∧ tbl3.length = 10 := by decide
+
+/-- **`_remove_non_reachable_` computes the reachability closure**: the set found by the
+    breadth-first loop (model: `reachFix`, fuel never exhausted) is exactly the set of
+    non-terminals reachable from the start. -/
+theorem C01_clean_reachable_closure (start : CNT) (tbl : Table)
+    (hc : ∀ e ∈ tbl, ∀ r ∈ e.2, ∀ a ∈ r.2.1, toNT a ∈ AList.keys tbl)
+    (hs : start ∈ AList.keys tbl) (nt : CNT) :
+    nt ∈ reachFix tbl (tbl.length * tbl.length + tbl.length + 1) [start] [start] ↔
+      Reach (⟨start, tbl⟩ : CFG) nt :=
+  mem_reachSet_iff start tbl hc hs nt
+
+open Example in
+/-- non-vacuity: the hypotheses hold for the table of `P3` after `_remove_non_productive_`,
+    5 of its 7 non-terminals are reachable -/
+example : (∀ e ∈ removeNonProductive tbl3, ∀ r ∈ e.2, ∀ a ∈ r.2.1, toNT a ∈ AList.keys (removeNonProductive tbl3)) ∧
+    startNT P3 ∈ AList.keys (removeNonProductive tbl3) ∧
+    (reachFix (removeNonProductive tbl3) (7 * 7 + 7 + 1) [startNT P3] [startNT P3]).length = 5 :=
+  ⟨removeNonProductive_closed (startNT P3) tbl3 Example.tbl3_wf, by decide, by decide⟩
+
+/-- **Worklist invariant**: when the loop of `depth_constraint` ends (with whatever fuel), the
+    table has distinct non-terminals, contains the start symbol, every non-terminal carries
+    exactly the dict of the rules created for it, and the non-terminals are closed under
+    "argument of a created rule of a member". -/
+theorem C01_worklist_closed (P : Params) (fuel : Nat) (tbl : Table)
+    (h : closure P fuel [startNT P] [] = some tbl) :
+    (AList.keys tbl).Nodup ∧ AList.contains (startNT P) tbl = true ∧
+    (∀ e ∈ tbl, e.2 = rulesDict (ruleSet P e.1)) ∧
+    (∀ e ∈ tbl, ∀ r ∈ ruleSet P e.1, ∀ a ∈ r.2, AList.contains (toNT a) tbl = true) := by
+  have hinv := closure_inv P fuel _ _ tbl (cinv_init P) h
+  refine ⟨hinv.nodup, start_key_of_cinv P tbl hinv, hinv.rows, ?_⟩
+  intro e he r hr a ha
+  rcases hinv.closed e he (toNT a) ((mem_kidsR P e.1 _).mpr ⟨r, hr, a, ha, rfl⟩) with h1 | h1
+  · exact mem_keys_iff_contains.mp h1
+  · cases h1
+
+open Example in
+/-- non-vacuity: the loop of `P3` ends with fuel 16 (and not with 15) -/
+example : closure P3 16 [startNT P3] [] = some tbl3 ∧ closure P3 15 [startNT P3] [] = none :=
+  ⟨Example.tbl3_eq, by decide⟩
+
+/-- **The uncleaned table has the specified language**: from the start symbol the table built by
+    the worklist loop derives exactly the well-typed terms. -/
+theorem C01_worklist_lang (P : Params) (fuel : Nat) (tbl : Table)
+    (h : closure P fuel [startNT P] [] = some tbl) (t : Prog) :
+    contains (⟨startNT P, tbl⟩ : CFG) t = wt P (effParent P) t 0 none P.request.returns := by
+  have hinv := closure_inv P fuel _ _ tbl (cinv_init P) h
+  rw [C01_contains_gen, closure_gen P (startNT P) tbl hinv t.size t (Nat.le_refl _) _
+    (start_key_of_cinv P tbl hinv), C01_rules_wt]
+
+open Example in
+example : contains (⟨startNT P3, tbl3⟩ : CFG) good = true ∧ contains (⟨startNT P3, tbl3⟩ : CFG) bad = false := by
+  decide
+
+/-- **Fuel adequacy**: the worklist loop ends within `buildFuel P` iterations (the number of
+    pushes of a run that never finds a non-terminal already treated), and more fuel does not
+    change the table. -/
+theorem C01_construction_fuel (P : Params) (fuel : Nat) (hf : buildFuel P ≤ fuel) :
+    ∃ tbl, closure P fuel [startNT P] [] = some tbl ∧
+      ∀ fuel', fuel ≤ fuel' → closure P fuel' [startNT P] [] = some tbl := by
+  have h := closure_terminates P fuel [startNT P] [] (by simpa [buildFuel] using hf)
+  cases hc : closure P fuel [startNT P] [] with
+  | none => rw [hc] at h; cases h
+  | some tbl =>
+    refine ⟨tbl, rfl, ?_⟩
+    intro fuel' hle
+    obtain ⟨d, rfl⟩ := Nat.exists_eq_add_of_le hle
+    induction d with
+    | zero => exact hc
+    | succ d ih => exact closure_mono P _ _ _ _ (ih (Nat.le_add_right _ _))
+
+open Example in
+/-- non-vacuity: the bound is attained on `P3` and `P4` -/
+example : buildFuel P3 = 16 ∧ closure P3 15 [startNT P3] [] = none ∧
+    buildFuel P4 = 3 ∧ closure P4 2 [startNT P4] [] = none := by decide
+
+/-- … hence the constructor's answer does not depend on the fuel once it is adequate. -/
+theorem C01_construction_fuel_indep (P : Params) (fuel : Nat) (hf : buildFuel P ≤ fuel) :
+    buildTable P fuel = buildTable P (buildFuel P) := by
+  obtain ⟨tbl, hc, hall⟩ := C01_construction_fuel P (buildFuel P) (Nat.le_refl _)
+  have h := hall fuel hf
+  unfold buildTable
+  rw [h, hc]
+
+open Example in
+/-- non-vacuity: `buildFuel P3 = 16`, and with fuel 15 the answer differs (loop not over) -/
+example : buildFuel P3 ≤ 1000 ∧ buildTable P3 15 = none ∧ (buildTable P3 (buildFuel P3)).isSome = true := by
+  decide
+
+/-- **C01 for the construction — language**: whenever the model of `CFG.depth_constraint`
+    returns a grammar, membership in it (the implementation's stack-based derivation) is exactly
+    well-typedness. For every parameter set and every fuel. -/
+theorem C01_construction_lang (P : Params) (fuel : Nat) (G : CFG) (h : buildTable P fuel = some G)
+    (t : Prog) : contains G t = wt P (effParent P) t 0 none P.request.returns := by
+  obtain ⟨tbl, hc, _, hstart, hclean⟩ := buildTable_some P fuel G h
+  have hG : G = ⟨startNT P, G.rules⟩ := by cases G; simp only at hstart; rw [hstart]
+  rw [← C01_worklist_lang P fuel tbl hc t, C01_contains_gen, C01_contains_gen, hG]
+  exact hclean.lang t
+
+open Example in
+/-- non-vacuity: the constructor succeeds on `P3`; the grammar contains `good`, not `bad` -/
+theorem Example.build3 : buildTable P3 16 = some ⟨startNT P3, T3⟩ := by
+  unfold buildTable
+  rw [Example.tbl3_eq]
+  simp only
+  rw [Example.T3_eq]
+open Example in
+example : contains (⟨startNT P3, T3⟩ : CFG) good = true ∧ contains (⟨startNT P3, T3⟩ : CFG) bad = false ∧
+    wt P3 (effParent P3) good 0 none P3.request.returns = true := by decide
+
+/-- **C01 for the construction — the statement's language** when the n-gram is wide enough to
+    hold the parent (finding C01-F2 otherwise, see `finding_C01_F2`). -/
+theorem C01_construction_statement_partial (P : Params) (fuel : Nat) (G : CFG)
+    (h : buildTable P fuel = some G) (hn : P.nGram ≥ 2 ∨ P.nGram < 0) (t : Prog) :
+    contains G t = wtTop P t := by
+  rw [C01_construction_lang P fuel G h t]
+  have : effParent P = some := by
+    funext p; simp [effParent, hn]
+  rw [this]; rfl
+
+open Example in
+example : buildTable P3 16 = some ⟨startNT P3, T3⟩ ∧ (P3.nGram ≥ 2 ∨ P3.nGram < 0) ∧
+    wtTop P3 good = true ∧ wtTop P3 bad = false := ⟨Example.build3, by decide, by decide, by decide⟩
+
+/-- **C01 for the construction — clean**: the grammar starts at the start symbol of the type
+    request, has distinct non-terminals and distinct symbols per non-terminal; every
+    non-terminal is reachable from the start and productive, every argument of every rule is a
+    non-terminal of the grammar, and the rules of a non-terminal are exactly the created rules
+    all of whose arguments are productive. -/
+theorem C01_construction_clean (P : Params) (fuel : Nat) (G : CFG) (h : buildTable P fuel = some G) :
+    G.start = startNT P ∧ AList.contains G.start G.rules = true ∧ (AList.keys G.rules).Nodup ∧
+    ∀ e ∈ G.rules, (AList.keys e.2).Nodup ∧ Reach G e.1 ∧ (∃ t, gen G t e.1 = true) ∧
+      (∀ r ∈ e.2, ∀ a ∈ r.2.1, AList.contains (toNT a) G.rules = true) ∧
+      (∀ f args, (f, (args, ())) ∈ e.2 ↔
+        (f, args) ∈ ruleSet P e.1 ∧ ∀ a ∈ args, ∃ t, genR P t (toNT a) = true) := by
+  obtain ⟨tbl, _, hinv, hstart, hs⟩ := buildTable_some P fuel G h
+  have hG : G = ⟨startNT P, G.rules⟩ := by cases G; simp only at hstart; rw [hstart]
+  have hwf := cinv_wf P tbl [] hinv
+  have hgen : ∀ nt, nt ∈ AList.keys tbl → ∀ t, gen (⟨startNT P, tbl⟩ : CFG) t nt = genR P t nt :=
+    fun nt hnt t => closure_gen P (startNT P) tbl hinv t.size t (Nat.le_refl _) nt (mem_keys_iff_contains.mp hnt)
+  refine ⟨hstart, by rw [hstart]; exact mem_keys_iff_contains.mp hs.start_key, hs.wf.keys, ?_⟩
+  intro e he
+  have hk := mem_keys_of_mem he
+  refine ⟨hs.wf.rows e he, by rw [hG]; exact hs.reachable _ hk, by rw [hG]; exact hs.productive _ hk,
+    fun r hr a ha => mem_keys_iff_contains.mp (hs.closed e he r hr a ha), ?_⟩
+  obtain ⟨e0, he0, h1, h2⟩ := hs.sub e he
+  have hrow : e0.2 = rulesDict (ruleSet P e.1) := by rw [hinv.rows e0 he0, h1]
+  -- arguments of created rules of a key of the uncleaned table are keys of it
+  have hargs : ∀ r ∈ ruleSet P e.1, ∀ a ∈ r.2, toNT a ∈ AList.keys tbl := by
+    intro r hr a ha
+    rcases hinv.closed e0 he0 (toNT a) ((mem_kidsR P e0.1 _).mpr ⟨r, h1 ▸ hr, a, ha, rfl⟩) with h3 | h3
+    · exact h3
+    · cases h3
+  intro f args
+  constructor
+  · intro hm
+    have hm0 := h2 _ hm
+    rw [hrow] at hm0
+    have hlk := lookup_row_of_mem (rulesDict_nodup _) hm0
+    have hin := rulesDict_lookup_mem _ f _ hlk
+    refine ⟨hin, ?_⟩
+    intro a ha
+    have hka := hs.closed e he _ hm a ha
+    obtain ⟨t, ht⟩ := hs.productive _ hka
+    refine ⟨t, ?_⟩
+    rw [hs.lang_key _ hka t, hgen _ (hargs _ hin a ha) t] at ht
+    exact ht
+  · rintro ⟨hin, hp⟩
+    apply hs.kept e he e0 he0 h1
+    · rw [hrow]
+      exact AList.lookup_some_mem (rulesDict_lookup_of_mem _ (ruleSet_functional P e.1) (f, args) hin)
+    · intro a ha
+      obtain ⟨t, ht⟩ := hp a ha
+      exact ⟨t, by rw [hgen _ (hargs _ hin a ha) t]; exact ht⟩
+
+open Example in
+/-- non-vacuity: in the grammar of `P3` the rule for `g` (argument `bool` unproductive) is
+    created for the start symbol but not kept; the rule for `+` is kept -/
+example : (ruleSet P3 (startNT P3)).any (fun r => r.1 == gS) = true ∧
+    ((AList.lookup (startNT P3) T3).getD []).any (fun r => r.1 == gS) = false ∧
+    ((AList.lookup (startNT P3) T3).getD []).any (fun r => r.1 == plus) = true := by decide
+
+/-- **C01 for the construction — failure**: if the worklist loop has ended and the constructor
+    fails (the KeyError of `clean` on the start symbol), the specified language is empty. -/
+theorem C01_construction_empty (P : Params) (fuel : Nat)
+    (hc : closure P fuel [startNT P] [] ≠ none) (h : buildTable P fuel = none) (t : Prog) :
+    wt P (effParent P) t 0 none P.request.returns = false := by
+  rcases buildTable_none P fuel h with h1 | ⟨tbl, h1, hinv, h2⟩
+  · exact absurd h1 hc
+  · rw [← C01_worklist_lang P fuel tbl h1 t]
+    exact C01_clean_fails_empty (startNT P) tbl (cinv_wf P tbl [] hinv) h2 t
+
+open Example in
+/-- non-vacuity: on `P4` the loop ends and the constructor fails -/
+example : closure P4 3 [startNT P4] [] ≠ none ∧ buildTable P4 3 = none := by decide
+
+/-- **C01 for the construction — total form**: with adequate fuel (`buildFuel P` or more), for
+    every parameter set, either the constructor returns a grammar whose language is exactly the
+    specified one, or it fails and the specified language is empty. -/
+theorem C01_construction (P : Params) (fuel : Nat) (hf : buildFuel P ≤ fuel) :
+    (∃ G, buildTable P fuel = some G ∧
+      ∀ t, contains G t = wt P (effParent P) t 0 none P.request.returns) ∨
+    (buildTable P fuel = none ∧ ∀ t, wt P (effParent P) t 0 none P.request.returns = false) := by
+  obtain ⟨tbl, hc, _⟩ := C01_construction_fuel P fuel hf
+  cases hb : buildTable P fuel with
+  | some G => exact Or.inl ⟨G, rfl, C01_construction_lang P fuel G hb⟩
+  | none => exact Or.inr ⟨rfl, C01_construction_empty P fuel (by rw [hc]; simp) hb⟩
+
+open Example in
+/-- non-vacuity: both branches occur, with adequate fuel -/
+example : buildFuel P3 ≤ 16 ∧ (buildTable P3 16).isSome = true ∧
+    buildFuel P4 ≤ 3 ∧ buildTable P4 3 = none := by decide
+
+/-- **C01 for the construction — counting**: on every grammar returned by the constructor
+    `programs()` returns a number (never -1, even with `recursive = True`: a depth-bounded grammar
+    is acyclic), and that number is the number of well-typed terms: there is a duplicate-free
+    list of exactly the terms of the language, of that length. -/
+theorem C01_construction_count (P : Params) (fuel : Nat) (G : CFG) (h : buildTable P fuel = some G) :
+    ∃ n, programs G = some n ∧ ∃ L : List Prog, L.Nodup ∧ n = L.length ∧
+      ∀ t, t ∈ L ↔ wt P (effParent P) t 0 none P.request.returns = true := by
+  obtain ⟨hstart, hskey, hnd, hall⟩ := C01_construction_clean P fuel G h
+  have hrows : RowsNodup G := fun nt rs hl => (hall (nt, rs) (AList.lookup_some_mem hl)).1
+  obtain ⟨n, hn⟩ := programs_isSome G
+    (by
+      intro e he r hr a ha
+      obtain ⟨_, _, _, _, hiff⟩ := hall e he
+      have hin := ((hiff r.1 r.2.1).mp hr).1
+      have := ruleSet_depth P e.1 _ hin a ha
+      unfold depthOf; omega)
+    (fun e he r hr a ha => mem_keys_iff_contains.mpr ((hall e he).2.2.2.1 r hr a ha))
+    (mem_keys_iff_contains.mpr hskey)
+  refine ⟨n, hn, ?_⟩
+  obtain ⟨k, hb, hnk⟩ := Programs.programs_eq_count G hnd n hn
+  refine ⟨lang G k G.start, lang_nodup G hrows k G.start, by rw [hnk, count_eq_length], ?_⟩
+  intro t
+  rw [mem_lang_of_bounded G hrows k t G.start hb, ← C01_construction_lang P fuel G h t, C01_contains_gen]
+
+open Example in
+/-- non-vacuity: the grammar of `P3` has 13 programs; so has the recursive variant's count a
+    number -/
+example : buildTable P3 16 = some ⟨startNT P3, T3⟩ ∧ programs (⟨startNT P3, T3⟩ : CFG) = some 13 ∧
+    ((buildTable { P3 with recursive := true } 40).bind programs).isSome = true :=
+  ⟨Example.build3, by decide, by decide⟩
+
+/-! ### non-vacuity and the recorded finding -/
 open Example in
 /-- the statement's language is not trivial: it contains `good`, rejects `bad` -/
 example : wtTop P2 good = true ∧ wtTop P2 bad = false := by decide
